@@ -14,7 +14,7 @@ Ltac break_step H :=
 
 (* s must be a variable; afterwards every field of s is a variable and s' is an explicit record *)
 Ltac step_inv s H :=
-  destruct s as [cm cp pp hd tk dn bp ch lg ud ou ce co];
+  destruct s as [cm cp pp hd tk dn bp mx ch lg ud ou ce co];
   unfold step, step_c, step_p, send in H; cbn in H;
   break_step H; cbn in H; break_step H;
   try (injection H as H; subst); try discriminate;
